@@ -3,7 +3,7 @@
 set -e
 WT=/tmp/wt-mut-$$
 git -C /repo worktree add -q --detach $WT HEAD
-trap "git -C /repo worktree remove --force $WT" EXIT
+trap "git -C /repo worktree remove --force $WT; rm -rf /tmp/verif-scratch-out" EXIT
 if [ "$1" = "-e" ]; then sed -i "$2" $WT/$3; shift 3; else git -C $WT apply "$1"; shift; fi
 [ "$1" = "--" ] && shift
 git -C $WT diff --stat | cat
